@@ -17,6 +17,13 @@
       DecoratorHelper._parse           :20-44
     rogw/tranp/implements/cpp/view/cpp_view_helper.py
       CppViewHelper.Param.parse        :42-65
+    rogw/tranp/implements/cpp/transpiler/py2cpp.py   (the production callers named in the property's anchors)
+      Py2Cpp.proc_for_range            :495-508   range(...) argument splitting
+      Py2Cpp.on_throw                  :740-751   throw argument splitting
+      Py2Cpp.on_dict_comp              :1373-1379 dict-comprehension projection splitting
+      PatternParser.pluck_func_call_arguments :1779-1793, .break_indexer :1844-1858, .pluck_cvar_new :1860-1874
+    rogw/tranp/view/helper/decorator.py
+      DecoratorHelper.any / any_args   :96-104, 116-124;  DecoratorQuery.any / any_args / contains :189-197, 209-217, 229-241
   (tree after the four C18 repairs 3111a97, d6d867d, eb33d21, f350973)
 
   Conventions: Python `str` = `Str` = `List Char`; `text[b:e]` = `slice`; every Python exception that the code can raise on
@@ -357,6 +364,81 @@ def paramParse (parameter : Str) : Except Err (Str × Str × Str) :=
   (paramSplit parameter paramDefault).bind fun pd =>
   (breakSeparator pd.1 [' ']).bind fun typeSymbol =>
   paramFinish typeSymbol pd.2
+
+/-! ## The production callers in py2cpp.py -/
+
+/-- `PatternParser.pluck_func_call_arguments(func_call)`: `break_last_block(func_call, '()')[1]`. -/
+def pluckFuncCallArguments (funcCall : Str) : Except Err Str :=
+  (breakLastBlock funcCall ['(', ')']).bind fun r => .ok r.2
+
+/-- `PatternParser.break_indexer(indexer)`: `break_last_block(indexer, '[]')`. -/
+def breakIndexer (indexer : Str) : Except Err (Str × Str) := breakLastBlock indexer ['[', ']']
+
+/-- `PatternParser.pluck_cvar_new(argument)`: `break_last_block(argument, '()')`. -/
+def pluckCvarNew (argument : Str) : Except Err (Str × Str) := breakLastBlock argument ['(', ')']
+
+/-- `Py2Cpp.proc_for_range` (py2cpp.py:499-508): the template variables (begin, size, step) for `for_in = 'range(…)'`;
+    `argsNum` is the number of argument nodes. Tuple unpacking of a list of another length is `ValueError`. -/
+def forRangeVars (forIn : Str) (argsNum : Nat) : Except Err (Str × Str × Str) :=
+  (pluckFuncCallArguments forIn).bind fun joinArgs =>
+  if argsNum = 1 then .ok (['0'], joinArgs, ['1'])
+  else (breakSeparator joinArgs [',']).bind fun pieces =>
+    if argsNum = 2 then
+      match pieces with
+      | [b, s] => .ok (b, s, ['1'])
+      | _ => .error .ValueError
+    else
+      match pieces with
+      | [b, s, st] => .ok (b, s, st)
+      | _ => .error .ValueError
+
+/-- `Py2Cpp.on_throw` for a call (py2cpp.py:743-747): `calls = throws[:end_calls]` and the argument pieces of
+    `throws[end_calls + 1:-1]` (`find` = -1 when there is no `(`: both slices then run to the last character). -/
+def throwParts (throws : Str) : Except Err (Str × List Str) :=
+  match Str.find throws ['('] with
+  | none => (breakSeparator throws.dropLast [',']).bind fun args => .ok (throws.dropLast, args)
+  | some endCalls =>
+    (breakSeparator (slice throws (endCalls + 1) (throws.length - 1)) [',']).bind fun args =>
+      .ok (slice throws 0 endCalls, args)
+
+/-- `Py2Cpp.on_dict_comp` (py2cpp.py:1377): `projection_key, projection_value = break_separator(projection[1:-1], ',')`. -/
+def dictCompProjection (projection : Str) : Except Err (Str × Str) :=
+  (breakSeparator (slice projection 1 (projection.length - 1)) [',']).bind fun pieces =>
+    match pieces with
+    | [k, v] => .ok (k, v)
+    | _ => .error .ValueError
+
+/-! ## The query API of `DecoratorHelper` / `DecoratorQuery` (the parts without regular expressions) -/
+
+/-- The text in front of the first `(` (the whole text when there is none): `decorator[:args_begin]`. -/
+def pathOf (decorator : Str) : Str :=
+  match Str.find decorator ['('] with
+  | none => decorator
+  | some i => slice decorator 0 i
+
+/-- `DecoratorHelper.path` (lazy `_parse`; an empty path is re-parsed on every access, which gives the same value). -/
+def decoPath (decorator : Str) : Except Err Str := (decoParse decorator).bind fun r => .ok r.1
+/-- `DecoratorHelper.join_args`. -/
+def decoJoinArgs (decorator : Str) : Except Err Str := (decoParse decorator).bind fun r => .ok r.2.2
+/-- `DecoratorHelper.any(*paths)`: `self.path in paths`. -/
+def decoAny (decorator : Str) (paths : List Str) : Except Err Bool :=
+  (decoPath decorator).bind fun p => .ok (paths.contains p)
+/-- `DecoratorHelper.any_args(subject)`: `self.join_args.find(subject) != -1`. -/
+def decoAnyArgs (decorator subject : Str) : Except Err Bool :=
+  (decoJoinArgs decorator).bind fun a => .ok (Str.find a subject).isSome
+/-- `DecoratorQuery.any(*path)`: the decorators whose path is one of `paths`, in order (the list comprehension evaluates
+    `helper.any` decorator by decorator). -/
+def queryAny : List Str → List Str → Except Err (List Str)
+  | [], _ => .ok []
+  | d :: ds, paths => (decoAny d paths).bind fun b => (queryAny ds paths).bind fun r => .ok (if b then d :: r else r)
+/-- `DecoratorQuery.any_args(subject)`. -/
+def queryAnyArgs : List Str → Str → Except Err (List Str)
+  | [], _ => .ok []
+  | d :: ds, subject => (decoAnyArgs d subject).bind fun b => (queryAnyArgs ds subject).bind fun r => .ok (if b then d :: r else r)
+/-- `DecoratorQuery.contains(*path)`: stops at the first hit (later decorators are not parsed). -/
+def queryContains : List Str → List Str → Except Err Bool
+  | [], _ => .ok false
+  | d :: ds, paths => (decoAny d paths).bind fun b => if b then .ok true else queryContains ds paths
 
 /-! ## The fragment grammar -/
 
